@@ -230,6 +230,8 @@ pub struct Gen {
     /// swarm: this run spends a longer setup phase creating and funding five or more pools (long
     /// simple routes need them)
     pub pool_rich: bool,
+    /// seconds the clock will advance before the operation being generated executes
+    pub step_dt: u64,
 }
 
 fn dec(s: &str) -> Decimal {
@@ -252,7 +254,7 @@ impl Gen {
             }
         }
         let pool_rich = prof.w.contains_key("route") && rng.chance(1, 7);
-        Gen { pool_rich, rng, prof, total_steps, emitted: 0, next_id: 0, disabled, draining: false, drain_phase: 0, drain_tried: Default::default(), burst_left: 0, burst_done: false }
+        Gen { step_dt: 0, pool_rich, rng, prof, total_steps, emitted: 0, next_id: 0, disabled, draining: false, drain_phase: 0, drain_tried: Default::default(), burst_left: 0, burst_done: false }
     }
 
     fn uid(&mut self, p: &str) -> String {
@@ -326,6 +328,22 @@ impl Gen {
     }
 
     // ------------------------------------------------------------------------------------- helpers
+    /// the epoch in force when the operation being generated executes (after the step's clock
+    /// advance); one time in five the epoch before the advance (stale view: boundary cases)
+    fn exec_epoch(&mut self, c: &SimCore) -> u64 {
+        let stale = c.w.current_epoch().unwrap_or(0);
+        if self.step_dt == 0 || self.rng.chance(1, 5) {
+            return stale;
+        }
+        let em = c.w.em_config(&c.w.fm_config().epoch_manager_addr).epoch_config;
+        let t = c.w.now().saturating_add(self.step_dt);
+        let (g, d) = (em.genesis_epoch.u64(), em.duration.u64().max(1));
+        if t < g {
+            stale
+        } else {
+            (t - g) / d
+        }
+    }
     fn user(&mut self, c: &SimCore) -> String {
         self.rng.pick(&c.w.a.users).to_string()
     }
@@ -1029,7 +1047,7 @@ impl Gen {
             Some(l) if !self.rng.chance(1, 30) => l.clone(),
             _ => "factory/someone/else.LP".to_string(),
         };
-        let cur = c.w.current_epoch().unwrap_or(0);
+        let cur = self.exec_epoch(c);
         let fmc = c.w.fm_config();
         let buffer = fmc.max_farm_epoch_buffer as u64;
         let start_epoch = match self.rng.below(20) {
@@ -1100,7 +1118,8 @@ impl Gen {
         let fee = fmc.create_farm_fee.clone();
         // funds by fee configuration
         let mut funds: Vec<Coin> = vec![];
-        let variant = self.rng.below(12);
+        // half of the creations are funded exactly; the other half draws from the variants below
+        let variant = if self.rng.chance(1, 2) { 6 } else { self.rng.below(12) };
         if fee.denom == denom {
             let total = amount + fee.amount.u128();
             funds.push(coin(
@@ -1179,7 +1198,7 @@ impl Gen {
         let lp = Self::lp_denoms(c).first()?.clone();
         let fmc = c.w.fm_config();
         let fee = fmc.create_farm_fee.clone();
-        let cur = c.w.current_epoch().unwrap_or(0);
+        let cur = self.exec_epoch(c);
         let start_epoch = match self.rng.below(4) {
             0 | 1 => None,
             2 => Some(cur + 1),
@@ -1219,7 +1238,15 @@ impl Gen {
     }
 
     fn gen_farm_expand(&mut self, c: &SimCore) -> Op {
-        let f = match self.rng.pick_opt(&c.obs.farms) {
+        // mostly farms that can still be expanded (current epoch before the preliminary end)
+        let cur = self.exec_epoch(c);
+        let live: Vec<mantra_dex_std::farm_manager::Farm> = c.obs.farms.iter().filter(|f| cur < f.preliminary_end_epoch && f.claimed_amount < f.farm_asset.amount).cloned().collect();
+        if live.is_empty() && self.rng.chance(3, 4) {
+            // nothing expandable: a fresh farm is the more useful step
+            return self.gen_farm_create(c);
+        }
+        let from_live = !live.is_empty() && self.rng.chance(4, 5);
+        let f = match if from_live { self.rng.pick_opt(&live) } else { self.rng.pick_opt(&c.obs.farms) } {
             Some(f) => f.clone(),
             None => return self.gen_farm_create(c),
         };
@@ -1423,7 +1450,7 @@ impl Gen {
             Some(s) if !self.rng.chance(1, 15) => s.clone(),
             _ => self.user(c),
         };
-        let cur = c.w.current_epoch().unwrap_or(0);
+        let cur = self.exec_epoch(c);
         let last = c.obs.last_claimed.get(&sender).copied();
         let until_epoch = match self.rng.below(10) {
             0..=4 => None,
@@ -1785,6 +1812,7 @@ impl Gen {
         }
         self.emitted += 1;
         let dt = if self.prof.name == "epoch" { self.gen_epoch_dt(c) } else { self.gen_dt(c) };
+        self.step_dt = dt;
         // setup phase: make sure there are pools with liquidity
         let heavy = c.w.cfg.farm.max_concurrent_farms > 10;
         if heavy && !self.burst_done && self.emitted > self.prof.setup_steps && !c.obs.pools.is_empty() && self.prof.w.contains_key("farm_create") {
@@ -1796,11 +1824,13 @@ impl Gen {
         }
         let (op, dt) = if self.burst_left > 0 {
             self.burst_left -= 1;
+            let bdt = dt.min(self.rng.range(0, 30));
+            self.step_dt = bdt;
             let op = match self.gen_farm_burst(c) {
                 Some(op) => op,
                 None => self.gen_any(c),
             };
-            (op, dt.min(self.rng.range(0, 30)))
+            (op, bdt)
         } else {
             (Op::Noop, dt)
         };
